@@ -137,3 +137,946 @@ Proof. unfold reg_kinds_ok. rewrite andb_true_iff. intros [H1 H2]. revert i.
   destruct (IH (Datatypes.S i)) as [IH1 IH2]. rewrite IH1, IH2.
   rewrite (kind_in_same ik _ p H1), (kind_in_same nk _ p H2).
   unfold pos_capable, kw_capable, is_k. split; destruct (pkind p); reflexivity. Qed.
+
+(* ====================================================================== *)
+(* Part 2: the shell                                                       *)
+(* ====================================================================== *)
+
+(* ---------- traces refine Binding.run_pos / run_kw ---------- *)
+Lemma sequence_map_some {A} (l : list A) : sequence (map Some l) = Ok l.
+Proof. induction l as [|a l IH]; cbn [map sequence]; [reflexivity|]. rewrite IH. reflexivity. Qed.
+Lemma sequence_app_some {A} (l : list A) (t : list (option A)) :
+  sequence (map Some l ++ t) = match sequence t with Ok u => Ok (l ++ u) | RaiseType => RaiseType end.
+Proof. induction l as [|a l IH]; cbn [map app sequence].
+  - destruct (sequence t); reflexivity.
+  - rewrite IH. destruct (sequence t); reflexivity. Qed.
+Lemma sequence_ok {A} (l : list (option A)) t : sequence l = Ok t -> l = map Some t.
+Proof. revert t. induction l as [|[a|] l IH]; intros t H; cbn [sequence] in H.
+  - injection H as <-. reflexivity.
+  - destruct (sequence l) as [u|]; [|discriminate H]. injection H as <-. cbn [map]. f_equal. apply IH. reflexivity.
+  - discriminate H. Qed.
+Lemma sequence_raise {A} (l : list (option A)) : sequence l = RaiseType -> In None l.
+Proof. induction l as [|[a|] l IH]; cbn [sequence]; intros H.
+  - discriminate H.
+  - destruct (sequence l); [discriminate H|]. right. apply IH. reflexivity.
+  - left. reflexivity. Qed.
+Lemma sequence_kw_ok {A} (l : list (nat * option A)) t :
+  sequence_kw l = Ok t -> l = map (fun kc => (fst kc, Some (snd kc))) t.
+Proof. revert t. induction l as [|[k [a|]] l IH]; intros t H; cbn [sequence_kw] in H.
+  - injection H as <-. reflexivity.
+  - destruct (sequence_kw l) as [u|]; [|discriminate H]. injection H as <-. cbn [map fst snd]. f_equal. apply IH. reflexivity.
+  - discriminate H. Qed.
+Lemma sequence_kw_raise {A} (l : list (nat * option A)) : sequence_kw l = RaiseType -> exists k, In (k, None) l.
+Proof. induction l as [|[k [a|]] l IH]; cbn [sequence_kw]; intros H.
+  - discriminate H.
+  - destruct (sequence_kw l); [discriminate H|]. destruct (IH eq_refl) as [k' Hk]. exists k'. right. exact Hk.
+  - exists k. left. reflexivity. Qed.
+
+Section TraceLemmas.
+Variable val : Type.
+Notation cv := (cv val).
+
+Lemma sequence_var_trace vp (l : list val) : sequence (var_trace val vp l) = all_var val vp l.
+Proof. destruct vp as [p|]; unfold var_trace.
+  - destruct l as [|a l]; [reflexivity|]. cbn [all_var].
+    rewrite <- (map_map (Conv p) Some). apply sequence_map_some.
+  - destruct l; reflexivity. Qed.
+
+Theorem run_pos_trace m b (args : list val) : run_pos val m b args = sequence (trace_pos val m b args).
+Proof. destruct m; cbn [run_pos trace_pos].
+  - rewrite sequence_app_some, sequence_var_trace. reflexivity.
+  - rewrite sequence_map_some. reflexivity.
+  - rewrite sequence_var_trace. reflexivity.
+  - rewrite sequence_map_some. reflexivity. Qed.
+
+Theorem run_kw_trace m b (kw : list (nat * val)) : run_kw val m b kw = sequence_kw (trace_kw val m b kw).
+Proof. induction kw as [|[k v] r IH]; cbn [run_kw trace_kw map sequence_kw fst snd]; [reflexivity|].
+  unfold trace_kw in IH. rewrite IH. unfold trace_kw1.
+  destruct (run_kw1 val m b k v); [|reflexivity].
+  destruct (sequence_kw _); reflexivity. Qed.
+End TraceLemmas.
+
+Section ShellLemmas.
+Variables (val E : Type) (type_error : E) (um : nat -> val -> val + E) (key_val : nat -> val).
+Notation cv := (cv val).
+Notation eval_cv := (eval_cv val E type_error um key_val).
+Notation eval_seq := (eval_seq val E type_error um key_val).
+Notation eval_kws := (eval_kws val E type_error um key_val).
+Notation binder_eval := (binder_eval val E type_error um key_val).
+Notation conv_call := (conv_call val E type_error um key_val).
+
+(* an exception of the shell is TypeError or something an unmarshaller raised *)
+Definition raised_by_um (e : E) : Prop := exists p v, um p v = inr e.
+
+Lemma eval_cv_error c e : eval_cv c = inr e -> e = type_error \/ raised_by_um e.
+Proof. destruct c as [[p v|v|k]|]; cbn [BindingShell.eval_cv]; intros H.
+  - right. exists p, v. exact H.
+  - discriminate H.
+  - discriminate H.
+  - injection H as <-. left. reflexivity. Qed.
+Lemma eval_seq_error l e : eval_seq l = inr e -> e = type_error \/ raised_by_um e.
+Proof. induction l as [|c l IH]; cbn [BindingShell.eval_seq]; intros H; [discriminate H|].
+  destruct (eval_cv c) as [v|e'] eqn:Ec.
+  - destruct (eval_seq l) as [t|e'']; [discriminate H|]. injection H as <-. apply IH. reflexivity.
+  - injection H as <-. exact (eval_cv_error c e' Ec). Qed.
+Lemma eval_kws_error l e : eval_kws l = inr e -> e = type_error \/ raised_by_um e.
+Proof. induction l as [|[k c] l IH]; cbn [BindingShell.eval_kws]; intros H; [discriminate H|].
+  destruct (eval_cv c) as [v|e'] eqn:Ec.
+  - destruct (eval_kws l) as [t|e'']; [discriminate H|]. injection H as <-. apply IH. reflexivity.
+  - injection H as <-. exact (eval_cv_error c e' Ec). Qed.
+Lemma eval_seq_none l : In None l -> exists e, eval_seq l = inr e.
+Proof. induction l as [|c l IH]; intros H; [destruct H|]. cbn [BindingShell.eval_seq].
+  destruct H as [->|H].
+  - exists type_error. reflexivity.
+  - destruct (eval_cv c) as [v|e]; [|exists e; reflexivity].
+    destruct (IH H) as [e He]. rewrite He. exists e. reflexivity. Qed.
+Lemma eval_kws_none l k : In (k, None) l -> exists e, eval_kws l = inr e.
+Proof. induction l as [|[k' c] l IH]; intros H; [destruct H|]. cbn [BindingShell.eval_kws].
+  destruct H as [H|H].
+  - injection H as -> ->. exists type_error. reflexivity.
+  - destruct (eval_cv c) as [v|e]; [|exists e; reflexivity].
+    destruct (IH H) as [e He]. rewrite He. exists e. reflexivity. Qed.
+Lemma eval_seq_length l t : eval_seq l = inl t -> length t = length l.
+Proof. revert t. induction l as [|c l IH]; intros t H; cbn [BindingShell.eval_seq] in H.
+  - injection H as <-. reflexivity.
+  - destruct (eval_cv c); [|discriminate H]. destruct (eval_seq l) as [u|]; [|discriminate H].
+    injection H as <-. cbn [length]. f_equal. apply IH. reflexivity. Qed.
+Lemma eval_kws_keys l t : eval_kws l = inl t -> map fst t = map fst l.
+Proof. revert t. induction l as [|[k c] l IH]; intros t H; cbn [BindingShell.eval_kws] in H.
+  - injection H as <-. reflexivity.
+  - destruct (eval_cv c); [|discriminate H]. destruct (eval_kws l) as [u|]; [|discriminate H].
+    injection H as <-. cbn [map fst]. f_equal. apply IH. reflexivity. Qed.
+
+(* the binder as executed, when the model says which unmarshaller meets which argument *)
+Lemma binder_eval_ok c b args kw ea ek : run_binder val c b args kw = Ok (ea, ek) ->
+  binder_eval (posmode_of c) (kwmode_of c) b args kw =
+  match eval_seq (map Some ea) with
+  | inr e => inr e
+  | inl ua => match eval_kws (map (fun kc => (fst kc, Some (snd kc))) ek) with
+              | inr e => inr e | inl uk => inl (ua, uk) end
+  end.
+Proof. unfold run_binder. rewrite run_pos_trace, run_kw_trace. intros H.
+  destruct (sequence (trace_pos val (posmode_of c) b args)) as [a|] eqn:E1; [|discriminate H].
+  destruct (sequence_kw (trace_kw val (kwmode_of c) b kw)) as [k|] eqn:E2; [|discriminate H].
+  injection H as <- <-. unfold BindingShell.binder_eval.
+  rewrite (sequence_ok _ _ E1), (sequence_kw_ok _ _ E2). reflexivity. Qed.
+Lemma binder_eval_raise c b args kw : run_binder val c b args kw = RaiseType ->
+  exists e, binder_eval (posmode_of c) (kwmode_of c) b args kw = inr e.
+Proof. unfold run_binder. rewrite run_pos_trace, run_kw_trace. intros H. unfold BindingShell.binder_eval.
+  destruct (sequence (trace_pos val (posmode_of c) b args)) as [a|] eqn:E1.
+  - destruct (sequence_kw (trace_kw val (kwmode_of c) b kw)) as [k|] eqn:E2; [discriminate H|].
+    destruct (sequence_kw_raise _ E2) as [k Hk]. destruct (eval_kws_none _ k Hk) as [e He].
+    destruct (eval_seq _) as [ua|e']; [|exists e'; reflexivity]. rewrite He. exists e. reflexivity.
+  - destruct (eval_seq_none _ (sequence_raise _ E1)) as [e He]. rewrite He. exists e. reflexivity. Qed.
+Lemma binder_eval_error pm km b args kw e : binder_eval pm km b args kw = inr e -> e = type_error \/ raised_by_um e.
+Proof. unfold BindingShell.binder_eval. destruct (eval_seq _) as [ua|e1] eqn:E1.
+  - destruct (eval_kws _) as [uk|e2] eqn:E2; intros H; [discriminate H|]. injection H as <-. exact (eval_kws_error _ _ E2).
+  - intros H. injection H as <-. exact (eval_seq_error _ _ E1). Qed.
+
+(* shape: what reaches the callable has as many positionals and the same keyword names *)
+Lemma binder_eval_shape c s args kw ua uk :
+  binder_eval (posmode_of c) (kwmode_of c) (get_binding s) args kw = inl (ua, uk) ->
+  length ua = length args /\ map fst uk = map fst kw.
+Proof. intros H. destruct (run_binder val c (get_binding s) args kw) as [[ea ek]|] eqn:Er.
+  - rewrite (binder_eval_ok _ _ _ _ _ _ Er) in H. destruct (shape val c s args kw ea ek Er) as [H1 H2].
+    destruct (eval_seq (map Some ea)) as [a|] eqn:E1; [|discriminate H].
+    destruct (eval_kws _) as [k|] eqn:E2; [|discriminate H]. injection H as <- <-.
+    rewrite (eval_seq_length _ _ E1), map_length, H1. rewrite (eval_kws_keys _ _ E2), map_map. cbn [fst]. split; [reflexivity|exact H2].
+  - destruct (binder_eval_raise _ _ _ _ Er) as [e He]. rewrite He in H. discriminate H. Qed.
+
+Section Calls.
+Variable R : Type.
+Notation callable := (callable val E R).
+Notation shell_call := (shell_call val E type_error um key_val R).
+Notation bind := (bind val E type_error um key_val R).
+Notation wrap_fn := (wrap_fn val E type_error um key_val R).
+
+(* For every callable f, well-formed signature and call the interpreter can bind: the shell calls f on
+   the arguments converted per their own parameter (or raises the first conversion error, in call order) *)
+Theorem shell_call_converts rows s c (f : callable) args kw r :
+  wfb s = true -> matrix_ok rows = true -> matrix_lookup rows (truth_of s) = Some c ->
+  conv_call s args kw = Some r ->
+  shell_call c (get_binding s) f args kw = match r with inl (ua, uk) => f ua uk | inr e => Raise e end.
+Proof. intros Hwf Hm Hc Hr. unfold BindingShell.conv_call in Hr.
+  destruct (expected_pos val s args) as [ea|] eqn:Ea; [|discriminate Hr].
+  destruct (expected_kw val s kw) as [ek|] eqn:Ek; [|discriminate Hr]. injection Hr as <-.
+  pose proof (converts val rows s args kw ea ek Hwf Hm Ea Ek) as Hb. unfold bound_call in Hb. rewrite Hc in Hb.
+  unfold BindingShell.shell_call. rewrite (binder_eval_ok _ _ _ _ _ _ Hb).
+  destruct (eval_seq (map Some ea)) as [ua|e]; [|reflexivity].
+  destruct (eval_kws _) as [uk|e]; reflexivity. Qed.
+
+(* whatever the call: an exception of the shell itself is TypeError or an unmarshaller's; otherwise f is
+   called with the same number of positionals and the same keyword names in the same order *)
+Theorem shell_call_cases c s (f : callable) args kw :
+  (exists e, shell_call c (get_binding s) f args kw = Raise e /\ (e = type_error \/ raised_by_um e)) \/
+  (exists ua uk, shell_call c (get_binding s) f args kw = f ua uk /\ length ua = length args /\ map fst uk = map fst kw).
+Proof. unfold BindingShell.shell_call.
+  destruct (binder_eval (posmode_of c) (kwmode_of c) (get_binding s) args kw) as [[ua uk]|e] eqn:Eb.
+  - right. exists ua, uk. split; [reflexivity|]. exact (binder_eval_shape c s args kw ua uk Eb).
+  - left. exists e. split; [reflexivity|]. exact (binder_eval_error _ _ _ _ _ _ Eb). Qed.
+
+Theorem bind_converts rows s (f : callable) args kw r :
+  wfb s = true -> matrix_ok rows = true ->
+  conv_call s args kw = Some r ->
+  exists g, bind rows s f = Some g /\
+            g args kw = match r with inl (ua, uk) => f ua uk | inr e => Raise e end.
+Proof. intros Hwf Hm Hr. destruct (matrix_ok_lookup rows (truth_of s) Hm) as [c [Hc _]].
+  unfold BindingShell.bind. rewrite Hc. eexists. split; [reflexivity|].
+  exact (shell_call_converts rows s c f args kw r Hwf Hm Hc Hr). Qed.
+Theorem wrap_converts rows s (f : callable) args kw r :
+  wfb s = true -> matrix_ok rows = true ->
+  conv_call s args kw = Some r ->
+  exists g, wrap_fn rows s f = Some g /\
+            g args kw = match r with inl (ua, uk) => f ua uk | inr e => Raise e end.
+Proof. intros Hwf Hm Hr. destruct (matrix_ok_lookup rows (truth_of s) Hm) as [c [Hc _]].
+  unfold BindingShell.wrap_fn. rewrite Hc. eexists. split; [reflexivity|].
+  exact (shell_call_converts rows s c f args kw r Hwf Hm Hc Hr). Qed.
+End Calls.
+End ShellLemmas.
+
+(* ---------- the interpreter's call rule ---------- *)
+Definition is_some {A} (o : option A) : bool := match o with Some _ => true | None => false end.
+
+Lemma index_where_none_iff f (l : sig) i : index_where f l i = None <-> existsb f l = false.
+Proof. revert i. induction l as [|p l IH]; intros i; cbn [index_where existsb]; [tauto|].
+  destruct (f p); cbn [orb]; [split; intros H; discriminate H|apply IH]. Qed.
+
+Section CallRule.
+Variables (val E : Type) (type_error : E) (um : nat -> val -> val + E) (key_val : nat -> val).
+Notation cv := (cv val).
+Notation eval_seq := (eval_seq val E type_error um key_val).
+Notation eval_kws := (eval_kws val E type_error um key_val).
+Notation conv_call := (conv_call val E type_error um key_val).
+Notation conv_frame := (conv_frame val E um).
+Notation conv_slot := (conv_slot val E um).
+Notation conv_list := (conv_list val E um).
+Notation conv_kwlist := (conv_kwlist val E um).
+Notation kw_find := (kw_find val).
+Notation bind_params := (bind_params val).
+Notation py_bind := (py_bind val).
+Notation kw_accepted := (kw_accepted val).
+Notation exp_pos_suffix := (exp_pos_suffix val).
+
+(* -- acceptance depends on the shape of the call only -- *)
+Lemma kw_find_keys k (kw kw' : list (nat * val)) : map fst kw = map fst kw' ->
+  is_some (kw_find k kw) = is_some (kw_find k kw').
+Proof. revert kw'. induction kw as [|[a v] kw IH]; intros [|[a' v'] kw'] H; cbn [map fst] in H; try discriminate H; [reflexivity|].
+  injection H as <- H. cbn [BindingShell.kw_find]. destruct (Nat.eqb k a); [reflexivity|apply IH; exact H]. Qed.
+Lemma ocons_some (a : option (slot val)) (r : option (frame val)) :
+  @is_some (frame val) (ocons a r) = is_some a && is_some r.
+Proof. destruct a, r; reflexivity. Qed.
+Lemma kw_or_default_keys def p i (kw kw' : list (nat * val)) : map fst kw = map fst kw' ->
+  is_some (kw_or_default val def p i kw) = is_some (kw_or_default val def p i kw').
+Proof. intros H. unfold kw_or_default. pose proof (kw_find_keys (pname p) kw kw' H) as Hk.
+  destruct (kw_find (pname p) kw), (kw_find (pname p) kw'); cbn in Hk; try discriminate Hk; reflexivity. Qed.
+
+Lemma bind_params_shape def sall s i (args args' : list val) kw kw' :
+  length args = length args' -> map fst kw = map fst kw' ->
+  is_some (bind_params def sall s i args kw) = is_some (bind_params def sall s i args' kw').
+Proof. intros Hl Hk. revert i args args' Hl. induction s as [|p r IH]; intros i args args' Hl; cbn [BindingShell.bind_params].
+  - destruct args, args'; cbn [length] in Hl; try discriminate Hl; reflexivity.
+  - destruct (pkind p).
+    + destruct args as [|a args], args' as [|a' args']; cbn [length] in Hl; try discriminate Hl; rewrite !ocons_some.
+      * rewrite (IH (S i) [] [] eq_refl). reflexivity.
+      * injection Hl as Hl. rewrite (IH (S i) args args' Hl). reflexivity.
+    + destruct args as [|a args], args' as [|a' args']; cbn [length] in Hl; try discriminate Hl.
+      * rewrite !ocons_some, (IH (S i) [] [] eq_refl), (kw_or_default_keys def p i kw kw' Hk). reflexivity.
+      * injection Hl as Hl. pose proof (kw_find_keys (pname p) kw kw' Hk) as Hf.
+        destruct (kw_find (pname p) kw), (kw_find (pname p) kw'); cbn in Hf; try discriminate Hf; [reflexivity|].
+        rewrite !ocons_some, (IH (S i) args args' Hl). reflexivity.
+    + rewrite !ocons_some, (IH (S i) [] [] eq_refl). reflexivity.
+    + destruct args as [|a args], args' as [|a' args']; cbn [length] in Hl; try discriminate Hl; [|reflexivity].
+      rewrite !ocons_some, (IH (S i) [] [] eq_refl), (kw_or_default_keys def p i kw kw' Hk). reflexivity.
+    + destruct args as [|a args], args' as [|a' args']; cbn [length] in Hl; try discriminate Hl; [|reflexivity].
+      rewrite !ocons_some, (IH (S i) [] [] eq_refl). reflexivity. Qed.
+
+Lemma kw_accepted_keys s (kw kw' : list (nat * val)) : map fst kw = map fst kw' -> kw_accepted s kw = kw_accepted s kw'.
+Proof. intros H. unfold BindingShell.kw_accepted. f_equal. revert kw' H.
+  induction kw as [|[a v] kw IH]; intros [|[a' v'] kw'] H; cbn [map fst] in H; try discriminate H; [reflexivity|].
+  injection H as <- H. cbn [forallb fst]. rewrite (IH kw' H). reflexivity. Qed.
+End CallRule.
+
+Section CallRule2.
+Variables (val E : Type) (type_error : E) (um : nat -> val -> val + E) (key_val : nat -> val).
+Notation cv := (cv val).
+Notation eval_seq := (eval_seq val E type_error um key_val).
+Notation eval_kws := (eval_kws val E type_error um key_val).
+Notation conv_call := (conv_call val E type_error um key_val).
+Notation conv_frame := (conv_frame val E um).
+Notation conv_slot := (conv_slot val E um).
+Notation conv_list := (conv_list val E um).
+Notation conv_kwlist := (conv_kwlist val E um).
+Notation kw_find := (kw_find val).
+Notation bind_params := (bind_params val).
+Notation py_bind := (py_bind val).
+Notation kw_accepted := (kw_accepted val).
+Notation exp_pos_suffix := (exp_pos_suffix val).
+Notation convi := (fun iv : nat * val => Conv (fst iv) (snd iv)).
+
+(* -- the recursive reading of positional binding is Binding.expected_pos on well-formed signatures -- *)
+Definition pos_kind (p : param) : Prop := pkind p = PO \/ pkind p = PK.
+
+Lemma exp_pos_prefix (l rest : sig) i (args : list val) : Forall pos_kind l ->
+  exp_pos_suffix (l ++ rest) i args =
+  if length args <=? length l then Some (map convi (combine (seq i (length args)) args))
+  else match exp_pos_suffix rest (i + length l) (skipn (length l) args) with
+       | Some t => Some (map convi (combine (seq i (length l)) (firstn (length l) args)) ++ t)
+       | None => None end.
+Proof. intros Hl. revert i args. induction l as [|p l IH]; intros i args.
+  - cbn [app length]. destruct args as [|a args]; [reflexivity|]. cbn [length Nat.leb skipn firstn seq combine map app].
+    rewrite Nat.add_0_r. destruct (exp_pos_suffix rest i (a :: args)); reflexivity.
+  - apply Forall_cons_iff in Hl. destruct Hl as [Hp Hl]. destruct args as [|a args]; [reflexivity|].
+    assert (Hstep : exp_pos_suffix ((p :: l) ++ rest) i (a :: args) =
+                    match exp_pos_suffix (l ++ rest) (S i) args with Some t => Some (Conv i a :: t) | None => None end).
+    { cbn [app BindingShell.exp_pos_suffix]. destruct Hp as [-> | ->]; reflexivity. }
+    rewrite Hstep. rewrite (IH Hl (S i) args). cbn [length].
+    change (S (length args) <=? S (length l)) with (length args <=? length l).
+    destruct (length args <=? length l).
+    + reflexivity.
+    + cbn [skipn firstn seq combine map app fst snd]. replace (S i + length l) with (i + S (length l)) by lia.
+      destruct (exp_pos_suffix rest (i + S (length l)) (skipn (length l) args)); reflexivity. Qed.
+
+Lemma exp_pos_suffix_wf s (args : list val) : wfb s = true -> exp_pos_suffix s 0 args = expected_pos val s args.
+Proof. intros Hwf. pose (S := wfb_segs s Hwf). unfold expected_pos.
+  rewrite (vp_index s S), (has_k s S VP), (npos_segs s S).
+  assert (Hpp : Forall pos_kind (s_po s S ++ s_pk s S)).
+  { apply Forall_app. split.
+    - eapply Forall_impl; [|exact (s_po_k s S)]. intros p Hp. left. exact Hp.
+    - eapply Forall_impl; [|exact (s_pk_k s S)]. intros p Hp. right. exact Hp. }
+  rewrite (s_eq s S) at 1. rewrite app_assoc.
+  rewrite (exp_pos_prefix _ _ 0 args Hpp). rewrite app_length. cbn [Nat.add].
+  destruct (length args <=? length (s_po s S) + length (s_pk s S)) eqn:Hlen; [reflexivity|].
+  apply Nat.leb_gt in Hlen.
+  destruct (skipn (length (s_po s S) + length (s_pk s S)) args) as [|a rest] eqn:Hs.
+  { exfalso. revert Hs. apply skipn_nonempty. exact Hlen. }
+  destruct (s_vp s S) as [|v vl] eqn:Ev; cbn [nonempty negb app].
+  - (* no *args: the next parameter, if any, is keyword-only or var-keyword *)
+    assert (Hn : exp_pos_suffix (s_ko s S ++ s_vk s S) (length (s_po s S) + length (s_pk s S)) (a :: rest) = None).
+    { destruct (s_ko s S) as [|q ql] eqn:Eko; cbn [app].
+      - destruct (s_vk s S) as [|q ql] eqn:Evk; [reflexivity|]. cbn [BindingShell.exp_pos_suffix].
+        pose proof (s_vk_k s S) as A. rewrite Evk in A. apply Forall_cons_iff in A. destruct A as [-> _]. reflexivity.
+      - cbn [BindingShell.exp_pos_suffix].
+        pose proof (s_ko_k s S) as A. rewrite Eko in A. apply Forall_cons_iff in A. destruct A as [-> _]. reflexivity. }
+    rewrite Hn. reflexivity.
+  - cbn [BindingShell.exp_pos_suffix]. pose proof (s_vp_k s S) as A. rewrite Ev in A. apply Forall_cons_iff in A.
+    destruct A as [-> _]. reflexivity. Qed.
+
+(* -- a call the interpreter accepts is a call the specification can bind -- *)
+Lemma bind_params_exp_pos def sall r i (args : list val) kw fr :
+  bind_params def sall r i args kw = Some fr -> exists ea, exp_pos_suffix r i args = Some ea.
+Proof. revert i args fr. induction r as [|p r IH]; intros i args fr H; cbn [BindingShell.bind_params] in H.
+  - destruct args; [exists []; reflexivity|discriminate H].
+  - destruct args as [|a args]; [exists []; reflexivity|]. cbn [BindingShell.exp_pos_suffix].
+    destruct (pkind p).
+    + destruct (bind_params def sall r (S i) args kw) as [fr0|] eqn:E0; [|discriminate H].
+      destruct (IH _ _ _ E0) as [ea Hea]. rewrite Hea. eexists; reflexivity.
+    + destruct (kw_find (pname p) kw); [discriminate H|].
+      destruct (bind_params def sall r (S i) args kw) as [fr0|] eqn:E0; [|discriminate H].
+      destruct (IH _ _ _ E0) as [ea Hea]. rewrite Hea. eexists; reflexivity.
+    + eexists; reflexivity.
+    + discriminate H.
+    + discriminate H. Qed.
+
+Definition owner (s : sig) (k : nat) : option nat :=
+  match named_index s k with Some i => Some i | None => index_where (is_k VK) s 0 end.
+Lemma expected_kw1_owner s k (v : val) :
+  expected_kw1 val s k v = match owner s k with Some i => Some (Conv i v) | None => None end.
+Proof. unfold expected_kw1, owner. destruct (named_index s k); [reflexivity|].
+  destruct (index_where (is_k VK) s 0); reflexivity. Qed.
+Lemma named_index_named s k : named_index s k = None <-> named s k = false.
+Proof. unfold named_index, named. apply index_where_none_iff. Qed.
+
+Lemma kw_accepted_expected s (kw : list (nat * val)) : kw_accepted s kw = true -> exists ek, expected_kw val s kw = Some ek.
+Proof. unfold BindingShell.kw_accepted. intros H. induction kw as [|[k v] kw IH]; [exists []; reflexivity|].
+  cbn [expected_kw].
+  assert (Hk : exists i, owner s k = Some i).
+  { unfold owner. destruct (named_index s k) as [i|] eqn:En; [exists i; reflexivity|].
+    apply named_index_named in En. destruct (has VK s) eqn:Hv.
+    - destruct (index_where (is_k VK) s 0) as [j|] eqn:Ej; [exists j; reflexivity|].
+      apply index_where_none_iff in Ej. unfold has in Hv. rewrite Hv in Ej. discriminate Ej.
+    - cbn [orb forallb fst] in H. rewrite En in H. discriminate H. }
+  destruct Hk as [i Hi]. rewrite expected_kw1_owner, Hi.
+  assert (H' : has VK s || forallb (fun kv : nat * val => named s (fst kv)) kw = true).
+  { destruct (has VK s); [reflexivity|]. cbn [orb forallb] in H |- *. apply andb_true_iff in H. tauto. }
+  destruct (IH H') as [ek Hek]. rewrite Hek. eexists; reflexivity. Qed.
+
+(* -- naturality: converting each passed value by its owner commutes with the interpreter's binding -- *)
+(* uk is kw with every value converted by the parameter the keyword binds to *)
+Definition kw_rel (s : sig) (kw uk : list (nat * val)) : Prop :=
+  Forall2 (fun kv ku => fst kv = fst ku /\ exists i, owner s (fst kv) = Some i /\ um i (snd kv) = inl (snd ku)) kw uk.
+
+Lemma kw_rel_spec s kw ek uk : expected_kw val s kw = Some ek ->
+  eval_kws (map (fun kc => (fst kc, Some (snd kc))) ek) = inl uk -> kw_rel s kw uk.
+Proof. revert ek uk. induction kw as [|[k v] kw IH]; intros ek uk He Hu; cbn [expected_kw] in He.
+  - injection He as <-. cbn in Hu. injection Hu as <-. constructor.
+  - rewrite expected_kw1_owner in He. destruct (owner s k) as [i|] eqn:Eo; [|discriminate He].
+    destruct (expected_kw val s kw) as [t|] eqn:Et; [|discriminate He]. injection He as <-.
+    cbn [map fst snd BindingShell.eval_kws BindingShell.eval_cv] in Hu.
+    destruct (um i v) as [u|] eqn:Eu; [|discriminate Hu].
+    destruct (eval_kws (map (fun kc => (fst kc, Some (snd kc))) t)) as [ut|] eqn:Eut; [|discriminate Hu].
+    injection Hu as <-. constructor.
+    + cbn [fst snd]. split; [reflexivity|]. exists i. split; assumption.
+    + apply (IH t ut eq_refl Eut). Qed.
+
+Lemma kw_rel_keys s kw uk : kw_rel s kw uk -> map fst kw = map fst uk.
+Proof. induction 1 as [|kv ku kw uk [Hk _] _ IH]; [reflexivity|]. cbn [map]. rewrite Hk, IH. reflexivity. Qed.
+Lemma kw_rel_find s kw uk k : kw_rel s kw uk ->
+  match kw_find k kw with
+  | Some v => exists u i, kw_find k uk = Some u /\ owner s k = Some i /\ um i v = inl u
+  | None => kw_find k uk = None end.
+Proof. induction 1 as [|[k1 v1] [k2 u2] kw uk [Hk [i [Ho Hu]]] _ IH]; [reflexivity|].
+  cbn [fst snd] in *. subst k2. cbn [BindingShell.kw_find]. destruct (Nat.eqb k k1) eqn:Ek; [|exact IH].
+  apply Nat.eqb_eq in Ek. subst k1. exists u2, i. repeat split; assumption. Qed.
+Lemma kw_rel_filter s kw uk j : kw_rel s kw uk -> index_where (is_k VK) s 0 = Some j ->
+  conv_kwlist j (filter (fun kv => negb (named s (fst kv))) kw) = inl (filter (fun kv => negb (named s (fst kv))) uk).
+Proof. intros H Hj. induction H as [|[k1 v1] [k2 u2] kw uk [Hk [i [Ho Hu]]] _ IH]; [reflexivity|].
+  cbn [fst snd] in *. subst k2. cbn [filter fst]. destruct (named s k1) eqn:En; cbn [negb]; [exact IH|].
+  cbn [BindingShell.conv_kwlist]. unfold owner in Ho. apply named_index_named in En. rewrite En, Hj in Ho.
+  injection Ho as <-. rewrite Hu, IH. reflexivity. Qed.
+
+Lemma conv_list_eval j (l : list val) : eval_seq (map Some (map (Conv j) l)) = conv_list j l.
+Proof. induction l as [|v l IH]; [reflexivity|]. cbn [map BindingShell.eval_seq BindingShell.eval_cv BindingShell.conv_list].
+  rewrite IH. reflexivity. Qed.
+
+Section Natural.
+Variable def : nat -> option val.
+Variable sall : sig.
+(* a keyword-capable parameter is found under its own name at its own index; the var-keyword
+   parameter is the first (only) one of its kind *)
+Hypothesis H_named : forall pre p r, sall = pre ++ p :: r -> kw_capable p = true ->
+  named_index sall (pname p) = Some (length pre).
+Hypothesis H_vk : forall pre p r, sall = pre ++ p :: r -> pkind p = VK ->
+  index_where (is_k VK) sall 0 = Some (length pre).
+
+Lemma kw_or_default_natural pre p r kw uk sl : sall = pre ++ p :: r -> kw_capable p = true -> kw_rel sall kw uk ->
+  kw_or_default val def p (length pre) kw = Some sl ->
+  exists sl', conv_slot (length pre) sl = inl sl' /\ kw_or_default val def p (length pre) uk = Some sl'.
+Proof. intros Hs Hc Hr H. unfold kw_or_default in *. pose proof (kw_rel_find sall kw uk (pname p) Hr) as Hf.
+  destruct (kw_find (pname p) kw) as [v|].
+  - destruct Hf as [u [i [Hu [Ho Hi]]]]. injection H as <-. unfold owner in Ho. rewrite (H_named pre p r Hs Hc) in Ho.
+    injection Ho as <-. exists (SArg u). cbn [BindingShell.conv_slot]. rewrite Hi, Hu. split; reflexivity.
+  - rewrite Hf. destruct (def (length pre)) as [d|]; [|discriminate H]. injection H as <-.
+    exists (SDefault d). split; reflexivity. Qed.
+
+Lemma bind_params_natural r : forall pre args kw uk fr ea ua,
+  sall = pre ++ r -> kw_rel sall kw uk ->
+  bind_params def sall r (length pre) args kw = Some fr ->
+  exp_pos_suffix r (length pre) args = Some ea -> eval_seq (map Some ea) = inl ua ->
+  exists fr', conv_frame (length pre) fr = inl fr' /\ bind_params def sall r (length pre) ua uk = Some fr'.
+Proof. induction r as [|p r IH]; intros pre args kw uk fr ea ua Hs Hr Hb He Hu; cbn [BindingShell.bind_params] in Hb.
+  - destruct args; [|discriminate Hb]. injection Hb as <-. cbn in He. injection He as <-. cbn in Hu. injection Hu as <-.
+    exists []. split; reflexivity.
+  - assert (Hs' : sall = (pre ++ [p]) ++ r) by (rewrite <- app_assoc; exact Hs).
+    assert (Hl' : length (pre ++ [p]) = S (length pre)) by (rewrite app_length; cbn; lia).
+    specialize (IH (pre ++ [p])). rewrite Hl' in IH.
+    destruct (pkind p) eqn:Ek.
+    + (* positional-only *)
+      destruct args as [|a args].
+      * cbn in He. injection He as <-. cbn in Hu. injection Hu as <-.
+        destruct (def (length pre)) as [d|] eqn:Ed; [|discriminate Hb].
+        destruct (bind_params def sall r (S (length pre)) [] kw) as [fr0|] eqn:E0; [|discriminate Hb]. injection Hb as <-.
+        destruct (IH [] kw uk fr0 [] [] Hs' Hr E0 eq_refl eq_refl) as [fr' [Hc Hb']].
+        exists (SDefault d :: fr'). cbn [BindingShell.conv_frame BindingShell.conv_slot BindingShell.bind_params].
+        rewrite Hc, Ek, Ed, Hb'. split; reflexivity.
+      * destruct (bind_params def sall r (S (length pre)) args kw) as [fr0|] eqn:E0; [|discriminate Hb]. injection Hb as <-.
+        cbn [BindingShell.exp_pos_suffix] in He. rewrite Ek in He.
+        destruct (exp_pos_suffix r (S (length pre)) args) as [ea0|] eqn:Ee; [|discriminate He]. injection He as <-.
+        cbn [map BindingShell.eval_seq BindingShell.eval_cv] in Hu. destruct (um (length pre) a) as [u|] eqn:Eu; [|discriminate Hu].
+        destruct (eval_seq (map Some ea0)) as [ua0|] eqn:Eua; [|discriminate Hu]. injection Hu as <-.
+        destruct (IH args kw uk fr0 ea0 ua0 Hs' Hr E0 Ee Eua) as [fr' [Hc Hb']].
+        exists (SArg u :: fr'). cbn [BindingShell.conv_frame BindingShell.conv_slot BindingShell.bind_params].
+        rewrite Eu, Hc, Ek, Hb'. split; reflexivity.
+    + (* positional-or-keyword *)
+      assert (Hcap : kw_capable p = true) by (unfold kw_capable, is_k; rewrite Ek; reflexivity).
+      destruct args as [|a args].
+      * cbn in He. injection He as <-. cbn in Hu. injection Hu as <-.
+        destruct (kw_or_default val def p (length pre) kw) as [sl|] eqn:Ekd; [|discriminate Hb].
+        destruct (bind_params def sall r (S (length pre)) [] kw) as [fr0|] eqn:E0; [|discriminate Hb]. injection Hb as <-.
+        destruct (IH [] kw uk fr0 [] [] Hs' Hr E0 eq_refl eq_refl) as [fr' [Hc Hb']].
+        destruct (kw_or_default_natural pre p r kw uk sl Hs Hcap Hr Ekd) as [sl' [Hsl Hkd']].
+        exists (sl' :: fr'). cbn [BindingShell.conv_frame BindingShell.bind_params].
+        rewrite Hsl, Hc, Ek, Hkd', Hb'. split; reflexivity.
+      * pose proof (kw_rel_find sall kw uk (pname p) Hr) as Hf.
+        destruct (kw_find (pname p) kw); [discriminate Hb|].
+        destruct (bind_params def sall r (S (length pre)) args kw) as [fr0|] eqn:E0; [|discriminate Hb]. injection Hb as <-.
+        cbn [BindingShell.exp_pos_suffix] in He. rewrite Ek in He.
+        destruct (exp_pos_suffix r (S (length pre)) args) as [ea0|] eqn:Ee; [|discriminate He]. injection He as <-.
+        cbn [map BindingShell.eval_seq BindingShell.eval_cv] in Hu. destruct (um (length pre) a) as [u|] eqn:Eu; [|discriminate Hu].
+        destruct (eval_seq (map Some ea0)) as [ua0|] eqn:Eua; [|discriminate Hu]. injection Hu as <-.
+        destruct (IH args kw uk fr0 ea0 ua0 Hs' Hr E0 Ee Eua) as [fr' [Hc Hb']].
+        exists (SArg u :: fr'). cbn [BindingShell.conv_frame BindingShell.conv_slot BindingShell.bind_params].
+        rewrite Eu, Hc, Ek, Hf, Hb'. split; reflexivity.
+    + (* var-positional: takes every remaining positional *)
+      destruct (bind_params def sall r (S (length pre)) [] kw) as [fr0|] eqn:E0; [|discriminate Hb]. injection Hb as <-.
+      assert (Hea : ea = map (Conv (length pre)) args).
+      { destruct args as [|a args]; cbn [BindingShell.exp_pos_suffix] in He; [injection He as <-; reflexivity|].
+        rewrite Ek in He. injection He as <-. reflexivity. }
+      subst ea. rewrite conv_list_eval in Hu.
+      destruct (IH [] kw uk fr0 [] [] Hs' Hr E0 eq_refl eq_refl) as [fr' [Hc Hb']].
+      exists (SVarPos ua :: fr'). cbn [BindingShell.conv_frame BindingShell.conv_slot BindingShell.bind_params].
+      rewrite Hu, Hc, Ek, Hb'. split; reflexivity.
+    + (* keyword-only *)
+      assert (Hcap : kw_capable p = true) by (unfold kw_capable, is_k; rewrite Ek; destruct (kind_eqb KO PK); reflexivity).
+      destruct args as [|a args]; [|discriminate Hb].
+      cbn in He. injection He as <-. cbn in Hu. injection Hu as <-.
+      destruct (kw_or_default val def p (length pre) kw) as [sl|] eqn:Ekd; [|discriminate Hb].
+      destruct (bind_params def sall r (S (length pre)) [] kw) as [fr0|] eqn:E0; [|discriminate Hb]. injection Hb as <-.
+      destruct (IH [] kw uk fr0 [] [] Hs' Hr E0 eq_refl eq_refl) as [fr' [Hc Hb']].
+      destruct (kw_or_default_natural pre p r kw uk sl Hs Hcap Hr Ekd) as [sl' [Hsl Hkd']].
+      exists (sl' :: fr'). cbn [BindingShell.conv_frame BindingShell.bind_params].
+      rewrite Hsl, Hc, Ek, Hkd', Hb'. split; reflexivity.
+    + (* var-keyword: takes every keyword no parameter is named like *)
+      destruct args as [|a args]; [|discriminate Hb].
+      cbn in He. injection He as <-. cbn in Hu. injection Hu as <-.
+      destruct (bind_params def sall r (S (length pre)) [] kw) as [fr0|] eqn:E0; [|discriminate Hb]. injection Hb as <-.
+      destruct (IH [] kw uk fr0 [] [] Hs' Hr E0 eq_refl eq_refl) as [fr' [Hc Hb']].
+      exists (SVarKw (filter (fun kv => negb (named sall (fst kv))) uk) :: fr').
+      cbn [BindingShell.conv_frame BindingShell.conv_slot BindingShell.bind_params].
+      rewrite (kw_rel_filter sall kw uk (length pre) Hr (H_vk pre p r Hs Ek)), Hc, Ek, Hb'. split; reflexivity.
+Qed.
+End Natural.
+End CallRule2.
+
+(* -- discharging the two hypotheses of naturality -- *)
+Lemma distinct_names_app pre p r : distinct_names (pre ++ p :: r) = true -> forall q, In q pre -> Nat.eqb (pname q) (pname p) = false.
+Proof. induction pre as [|q0 pre IH]; intros H q Hq; [destruct Hq|]. cbn [app distinct_names] in H.
+  apply andb_true_iff in H. destruct H as [H1 H2]. destruct Hq as [<-|Hq]; [|exact (IH H2 q Hq)].
+  apply negb_true_iff in H1. destruct (Nat.eqb (pname q0) (pname p)) eqn:Eq; [|reflexivity].
+  exfalso. assert (X : existsb (fun q => Nat.eqb (pname q) (pname q0)) (pre ++ p :: r) = true).
+  { apply existsb_exists. exists p. split; [apply in_or_app; right; left; reflexivity|].
+    rewrite Nat.eqb_sym. exact Eq. }
+  rewrite X in H1. discriminate H1. Qed.
+
+Lemma named_index_own sall pre p r : distinct_names sall = true -> sall = pre ++ p :: r -> kw_capable p = true ->
+  named_index sall (pname p) = Some (length pre).
+Proof. intros Hd Hs Hc. subst sall. unfold named_index.
+  rewrite index_where_skip.
+  - cbn [index_where]. rewrite Hc, Nat.eqb_refl. reflexivity.
+  - intros q Hq. rewrite (distinct_names_app pre p r Hd q Hq). apply andb_false_r. Qed.
+
+Lemma index_where_le f (pre : sig) p r i : f p = true -> exists j, index_where f (pre ++ p :: r) i = Some j /\ j <= i + length pre.
+Proof. intros Hp. revert i. induction pre as [|q pre IH]; intros i; cbn [app index_where length].
+  - rewrite Hp. exists i. split; [reflexivity|lia].
+  - destruct (f q); [exists i; split; [reflexivity|lia]|]. destruct (IH (S i)) as [j [Hj Hle]]. exists j. split; [exact Hj|lia]. Qed.
+
+Lemma vk_index_own sall pre p r : wfb sall = true -> sall = pre ++ p :: r -> pkind p = VK ->
+  index_where (is_k VK) sall 0 = Some (length pre).
+Proof. intros Hwf Hs Hk. pose (S := wfb_segs sall Hwf). pose proof (vk_index sall S) as Hv.
+  assert (Hp : is_k VK p = true) by (apply is_k_eq; exact Hk).
+  assert (Hh : has VK sall = true).
+  { unfold has. apply existsb_exists. exists p. split; [rewrite Hs; apply in_or_app; right; left; reflexivity|exact Hp]. }
+  rewrite Hh in Hv. destruct (index_where_le (is_k VK) pre p r 0 Hp) as [j [Hj Hle]].
+  rewrite <- Hs in Hj. rewrite Hj in Hv. injection Hv as Hv.
+  assert (Hlen : length sall = length pre + Datatypes.S (length r)) by (rewrite Hs, app_length; reflexivity).
+  rewrite Hj. f_equal. lia. Qed.
+
+Section Frames.
+Variables (val E : Type) (type_error : E) (um : nat -> val -> val + E) (key_val : nat -> val) (R : Type).
+Notation conv_call := (conv_call val E type_error um key_val).
+Notation conv_frame := (conv_frame val E um).
+Notation py_bind := (py_bind val).
+Notation shell_call := (shell_call val E type_error um key_val R).
+Notation call_fn := (@call_fn val E type_error R).
+Notation raised_by_um := (raised_by_um val E um).
+
+Lemma py_bind_shape def s (args args' : list val) kw kw' :
+  length args = length args' -> map fst kw = map fst kw' ->
+  is_some (py_bind def s args kw) = is_some (py_bind def s args' kw').
+Proof. intros Hl Hk. unfold BindingShell.py_bind. rewrite (kw_accepted_keys val s kw kw' Hk).
+  destruct (kw_accepted val s kw'); [|reflexivity]. apply bind_params_shape; assumption. Qed.
+
+(* END TO END, a call the interpreter accepts.  The raw call binds to frame fr.  Then the specification can
+   bind it (conv_call is defined); if a conversion fails, the first failure in call order is raised and
+   the body never runs; otherwise the body runs on the frame in which every passed value is converted by
+   its own parameter's unmarshaller, defaults untouched -- and that frame is what the interpreter binds
+   the converted call to. *)
+Theorem shell_frame_accepts rows (pf : pyfun val E R) c args kw fr :
+  wfb (f_sig pf) = true -> distinct_names (f_sig pf) = true ->
+  matrix_ok rows = true -> matrix_lookup rows (truth_of (f_sig pf)) = Some c ->
+  py_bind (f_def pf) (f_sig pf) args kw = Some fr ->
+  exists r, conv_call (f_sig pf) args kw = Some r /\
+    match r with
+    | inr e => shell_call c (get_binding (f_sig pf)) (call_fn pf) args kw = Raise e
+    | inl (ua, uk) => exists fr', conv_frame 0 fr = inl fr' /\ py_bind (f_def pf) (f_sig pf) ua uk = Some fr' /\
+                                  shell_call c (get_binding (f_sig pf)) (call_fn pf) args kw = f_body pf fr'
+    end.
+Proof. intros Hwf Hd Hm Hc Hb. set (s := f_sig pf) in *. unfold BindingShell.py_bind in Hb.
+  destruct (kw_accepted val s kw) eqn:Hka; [|discriminate Hb].
+  destruct (bind_params_exp_pos val (f_def pf) s s 0 args kw fr Hb) as [ea Hea].
+  destruct (kw_accepted_expected val E um key_val s kw Hka) as [ek Hek].
+  pose proof Hea as Hea'. rewrite (exp_pos_suffix_wf val s args Hwf) in Hea'.
+  assert (Hcc : exists r, conv_call s args kw = Some r).
+  { unfold BindingShell.conv_call. rewrite Hea', Hek. eexists; reflexivity. }
+  destruct Hcc as [r Hr]. exists r. split; [exact Hr|].
+  pose proof (shell_call_converts val E type_error um key_val R rows s c (call_fn pf) args kw r Hwf Hm Hc Hr) as Hsc.
+  unfold BindingShell.conv_call in Hr. rewrite Hea', Hek in Hr. injection Hr as Hr.
+  destruct (eval_seq val E type_error um key_val (map Some ea)) as [ua|e] eqn:Eua.
+  2:{ subst r. exact Hsc. }
+  destruct (eval_kws val E type_error um key_val (map (fun kc => (fst kc, Some (snd kc))) ek)) as [uk|e] eqn:Euk.
+  2:{ subst r. exact Hsc. }
+  subst r. pose proof (kw_rel_spec val E type_error um key_val s kw ek uk Hek Euk) as Hrel.
+  destruct (bind_params_natural val E type_error um key_val (f_def pf) s
+              (fun pre p r Hs Hcap => named_index_own s pre p r Hd Hs Hcap)
+              (fun pre p r Hs Hk => vk_index_own s pre p r Hwf Hs Hk)
+              s [] args kw uk fr ea ua eq_refl Hrel Hb Hea Eua) as [fr' [Hcf Hb']].
+  cbn [length] in Hcf, Hb'. exists fr'. split; [exact Hcf|].
+  assert (Hpb : py_bind (f_def pf) s ua uk = Some fr').
+  { unfold BindingShell.py_bind. rewrite <- (kw_accepted_keys val s kw uk (kw_rel_keys val E um s kw uk Hrel)), Hka. exact Hb'. }
+  split; [exact Hpb|]. rewrite Hsc. unfold BindingShell.call_fn. fold s. rewrite Hpb. reflexivity. Qed.
+
+(* a call the interpreter rejects is rejected by the shell too: an exception, TypeError unless an
+   unmarshaller raised first; the body never runs *)
+Theorem shell_frame_rejects (pf : pyfun val E R) c args kw :
+  py_bind (f_def pf) (f_sig pf) args kw = None ->
+  exists e, shell_call c (get_binding (f_sig pf)) (call_fn pf) args kw = Raise e /\ (e = type_error \/ raised_by_um e).
+Proof. intros Hb.
+  destruct (shell_call_cases val E type_error um key_val R c (f_sig pf) (call_fn pf) args kw) as [[e [He Hc]]|[ua [uk [He [Hl Hk]]]]].
+  - exists e. split; assumption.
+  - exists type_error. split; [|left; reflexivity]. rewrite He. unfold BindingShell.call_fn.
+    pose proof (py_bind_shape (f_def pf) (f_sig pf) ua args uk kw Hl Hk) as Hs. rewrite Hb in Hs.
+    destruct (py_bind (f_def pf) (f_sig pf) ua uk); [discriminate Hs|reflexivity]. Qed.
+
+(* when no unmarshaller raises: TypeError exactly *)
+Corollary shell_frame_rejects_total (pf : pyfun val E R) c args kw :
+  (forall p v, exists u, um p v = inl u) ->
+  py_bind (f_def pf) (f_sig pf) args kw = None ->
+  shell_call c (get_binding (f_sig pf)) (call_fn pf) args kw = Raise type_error.
+Proof. intros Ht Hb. destruct (shell_frame_rejects pf c args kw Hb) as [e [He [->|[p [v Hv]]]]]; [exact He|].
+  destruct (Ht p v) as [u Hu]. rewrite Hu in Hv. discriminate Hv. Qed.
+
+(* the self parameter: wrap(cls) wraps __init__(self, ...); self is unannotated (NoOp): it reaches the body
+   as it is, in the first slot *)
+Theorem shell_frame_init rows (pf : pyfun val E R) self_name s c inst args kw fr :
+  f_sig pf = init_sig self_name s -> (forall v, um 0 v = inl v) ->
+  wfb (f_sig pf) = true -> distinct_names (f_sig pf) = true ->
+  matrix_ok rows = true -> matrix_lookup rows (truth_of (f_sig pf)) = Some c ->
+  py_bind (f_def pf) (f_sig pf) (inst :: args) kw = Some fr ->
+  exists fr0, fr = SArg inst :: fr0 /\
+  exists r, conv_call (f_sig pf) (inst :: args) kw = Some r /\
+    match r with
+    | inr e => shell_call c (get_binding (f_sig pf)) (call_fn pf) (inst :: args) kw = Raise e
+    | inl _ => exists fr0', conv_frame 1 fr0 = inl fr0' /\
+                            shell_call c (get_binding (f_sig pf)) (call_fn pf) (inst :: args) kw = f_body pf (SArg inst :: fr0')
+    end.
+Proof. intros Hsig Hnoop Hwf Hd Hm Hc Hb.
+  assert (Hfr : exists fr0, fr = SArg inst :: fr0).
+  { unfold BindingShell.py_bind in Hb. destruct (kw_accepted val (f_sig pf) kw); [|discriminate Hb].
+    rewrite Hsig in Hb. unfold init_sig in Hb. cbn [BindingShell.bind_params self_param pkind] in Hb.
+    destruct (has PO s).
+    - destruct (bind_params val _ _ s 1 args kw) as [fr0|]; [|discriminate Hb]. injection Hb as <-. exists fr0. reflexivity.
+    - destruct (kw_find val _ kw); [discriminate Hb|].
+      destruct (bind_params val _ _ s 1 args kw) as [fr0|]; [|discriminate Hb]. injection Hb as <-. exists fr0. reflexivity. }
+  destruct Hfr as [fr0 ->]. exists fr0. split; [reflexivity|].
+  destruct (shell_frame_accepts rows pf c (inst :: args) kw _ Hwf Hd Hm Hc Hb) as [r [Hr Hres]].
+  exists r. split; [exact Hr|]. destruct r as [[ua uk]|e]; [|exact Hres].
+  destruct Hres as [fr' [Hcf [_ Hsc]]]. cbn [BindingShell.conv_frame BindingShell.conv_slot] in Hcf. rewrite Hnoop in Hcf.
+  destruct (conv_frame 1 fr0) as [fr0'|]; [|discriminate Hcf]. injection Hcf as <-.
+  exists fr0'. split; [reflexivity|exact Hsc]. Qed.
+End Frames.
+
+(* ---------- wrapping twice ---------- *)
+Section Twice.
+Variables (val E : Type) (type_error : E) (um : nat -> val -> val + E) (key_val : nat -> val) (R : Type).
+Notation cv := (cv val).
+Notation eval_cv := (eval_cv val E type_error um key_val).
+Notation eval_seq := (eval_seq val E type_error um key_val).
+Notation eval_kws := (eval_kws val E type_error um key_val).
+Notation binder_eval := (binder_eval val E type_error um key_val).
+Notation conv_call := (conv_call val E type_error um key_val).
+Notation shell_call := (shell_call val E type_error um key_val R).
+Notation callable := (callable val E R).
+
+(* two layers = two conversions, each by the same parameter's unmarshaller *)
+Theorem shell_call_twice rows s c (f : callable) args kw ua uk r2 :
+  wfb s = true -> matrix_ok rows = true -> matrix_lookup rows (truth_of s) = Some c ->
+  conv_call s args kw = Some (inl (ua, uk)) -> conv_call s ua uk = Some r2 ->
+  shell_call c (get_binding s) (shell_call c (get_binding s) f) args kw =
+  match r2 with inl (ua2, uk2) => f ua2 uk2 | inr e => Raise e end.
+Proof. intros Hwf Hm Hc H1 H2.
+  rewrite (shell_call_converts val E type_error um key_val R rows s c _ args kw _ Hwf Hm Hc H1).
+  exact (shell_call_converts val E type_error um key_val R rows s c f ua uk r2 Hwf Hm Hc H2). Qed.
+
+(* the second conversion is always defined: the specification's routing depends on the shape only *)
+Lemma conv_call_shape s (args args' : list val) kw kw' r :
+  conv_call s args kw = Some r -> length args' = length args -> map fst kw' = map fst kw ->
+  exists r', conv_call s args' kw' = Some r'.
+Proof. unfold BindingShell.conv_call. intros H Hl Hk.
+  destruct (expected_pos val s args) as [ea|] eqn:Ea; [|discriminate H].
+  destruct (expected_kw val s kw) as [ek|] eqn:Ek; [|discriminate H].
+  assert (Ha' : exists ea', expected_pos val s args' = Some ea').
+  { unfold expected_pos in *. rewrite Hl. destruct (length args <=? npos s); [eexists; reflexivity|].
+    destruct (index_where (is_k VP) s 0); [eexists; reflexivity|discriminate Ea]. }
+  assert (Hk' : exists ek', expected_kw val s kw' = Some ek').
+  { clear H Ea. revert kw ek Ek Hk. induction kw' as [|[k v'] kw' IH]; intros kw ek Ek Hk; [exists []; reflexivity|].
+    destruct kw as [|[k0 v] kw]; [discriminate Hk|]. cbn [map fst] in Hk. injection Hk as -> Hk.
+    cbn [expected_kw] in *. rewrite expected_kw1_owner in *.
+    destruct (owner s k0) as [i|]; [|discriminate Ek].
+    destruct (expected_kw val s kw) as [t|] eqn:Et; [|discriminate Ek].
+    destruct (IH kw t Et Hk) as [t' Ht']. rewrite Ht'. eexists; reflexivity. }
+  destruct Ha' as [ea' ->]. destruct Hk' as [ek' ->]. eexists; reflexivity. Qed.
+
+(* idempotent unmarshallers: a value an unmarshaller returned is returned unchanged by that unmarshaller *)
+Definition um_idem : Prop := forall p v u, um p v = inl u -> um p u = inl u.
+(* holds of every state _get_binding computes (Binding.get_startpos) *)
+Definition sp_vp_ok (b : bstate) : Prop := startpos b = None -> varpos b = None.
+Lemma get_binding_sp_vp s : sp_vp_ok (get_binding s).
+Proof. unfold sp_vp_ok. cbn [get_binding startpos varpos]. unfold get_startpos.
+  destruct (index_where (is_k VP) s 0); [intros H; discriminate H|reflexivity]. Qed.
+
+Lemma eval_seq_app l1 l2 u : eval_seq (l1 ++ l2) = inl u ->
+  exists u1 u2, u = u1 ++ u2 /\ eval_seq l1 = inl u1 /\ eval_seq l2 = inl u2.
+Proof. revert u. induction l1 as [|c l1 IH]; intros u H; cbn [app BindingShell.eval_seq] in *.
+  - exists [], u. repeat split. exact H.
+  - destruct (eval_cv c) as [v|]; [|discriminate H]. destruct (eval_seq (l1 ++ l2)) as [t|] eqn:Et; [|discriminate H].
+    injection H as <-. destruct (IH t eq_refl) as [u1 [u2 [-> [H1 H2]]]]. exists (v :: u1), u2. rewrite H1. repeat split. exact H2. Qed.
+Lemma eval_seq_app_ok l1 l2 u1 u2 : eval_seq l1 = inl u1 -> eval_seq l2 = inl u2 -> eval_seq (l1 ++ l2) = inl (u1 ++ u2).
+Proof. revert u1. induction l1 as [|c l1 IH]; intros u1 H1 H2; cbn [app BindingShell.eval_seq] in *.
+  - injection H1 as <-. exact H2.
+  - destruct (eval_cv c) as [v|]; [|discriminate H1]. destruct (eval_seq l1) as [t|]; [|discriminate H1].
+    injection H1 as <-. rewrite (IH t eq_refl H2). reflexivity. Qed.
+
+Section Idem.
+Hypothesis Hidem : um_idem.
+
+Lemma by_index_idem ix i (l u : list val) : eval_seq (map Some (by_index val ix i l)) = inl u ->
+  eval_seq (map Some (by_index val ix i u)) = inl u.
+Proof. revert i u. induction l as [|v l IH]; intros i u H; cbn [by_index map BindingShell.eval_seq] in H.
+  - injection H as <-. reflexivity.
+  - destruct (eval_cv (Some (if mem i ix then Conv i v else Raw v))) as [w|] eqn:Ew; [|discriminate H].
+    destruct (eval_seq (map Some (by_index val ix (S i) l))) as [t|] eqn:Et; [|discriminate H]. injection H as <-.
+    cbn [by_index map BindingShell.eval_seq]. rewrite (IH (S i) t Et).
+    destruct (mem i ix); cbn [BindingShell.eval_cv] in *.
+    + rewrite (Hidem i v w Ew). reflexivity.
+    + injection Ew as <-. reflexivity. Qed.
+Lemma raw_eval (l : list val) : eval_seq (map Some (map Raw l)) = inl l.
+Proof. induction l as [|v l IH]; [reflexivity|]. cbn [map BindingShell.eval_seq BindingShell.eval_cv]. rewrite IH. reflexivity. Qed.
+Lemma var_trace_idem vp (l u : list val) : eval_seq (var_trace val vp l) = inl u -> eval_seq (var_trace val vp u) = inl u.
+Proof. revert u. induction l as [|v l IH]; intros u H; cbn [var_trace map BindingShell.eval_seq] in H.
+  - injection H as <-. reflexivity.
+  - destruct vp as [p|]; cbn [BindingShell.eval_cv] in H; [|discriminate H].
+    destruct (um p v) as [w|] eqn:Ew; [|discriminate H].
+    fold (var_trace val (Some p) l) in H. destruct (eval_seq (var_trace val (Some p) l)) as [t|] eqn:Et; [|discriminate H].
+    injection H as <-. cbn [var_trace map BindingShell.eval_seq BindingShell.eval_cv]. rewrite (Hidem p v w Ew).
+    fold (var_trace val (Some p) t). rewrite (IH t eq_refl). reflexivity. Qed.
+Lemma var_trace_none_ok (l u : list val) : eval_seq (var_trace val None l) = inl u -> l = [] /\ u = [].
+Proof. destruct l; cbn; intros H; [injection H as <-; split; reflexivity|discriminate H]. Qed.
+
+Lemma trace_pos_idem m b (args ua : list val) : sp_vp_ok b ->
+  eval_seq (trace_pos val m b args) = inl ua -> eval_seq (trace_pos val m b ua) = inl ua.
+Proof. intros Hb H. destruct m; cbn [trace_pos] in *.
+  - (* PosSplit *)
+    destruct (eval_seq_app _ _ _ H) as [u1 [u2 [-> [H1 H2]]]].
+    destruct (startpos b) as [n|] eqn:Esp; cbn [slice_to slice_from] in *.
+    + pose proof (eval_seq_length val E type_error um key_val _ _ H1) as L1. rewrite map_length, by_index_length, firstn_length in L1.
+      pose proof (eval_seq_length val E type_error um key_val _ _ H2) as L2. unfold var_trace in L2. rewrite map_length, skipn_length in L2.
+      assert (Hf : firstn n (u1 ++ u2) = u1 /\ skipn n (u1 ++ u2) = u2).
+      { destruct (Nat.le_gt_cases n (length args)) as [Hle|Hgt].
+        - assert (length u1 = n) by lia. subst n. rewrite firstn_app, Nat.sub_diag, firstn_all, skipn_app, Nat.sub_diag, skipn_all.
+          cbn [firstn skipn app]. rewrite app_nil_r. split; reflexivity.
+        - assert (length u2 = 0) by lia. destruct u2; [|discriminate]. rewrite app_nil_r.
+          split; [apply firstn_all2; lia|apply skipn_all2; lia]. }
+      destruct Hf as [-> ->]. apply eval_seq_app_ok; [exact (by_index_idem _ _ _ _ H1)|exact (var_trace_idem _ _ _ H2)].
+    + rewrite (Hb Esp) in *. destruct (var_trace_none_ok _ _ H2) as [-> ->].
+      cbn in H1. injection H1 as <-. reflexivity.
+  - exact (by_index_idem _ _ _ _ H).
+  - exact (var_trace_idem _ _ _ H).
+  - rewrite raw_eval in H. injection H as <-. apply raw_eval. Qed.
+
+Lemma trace_kw_idem m b (kw uk : list (nat * val)) :
+  eval_kws (trace_kw val m b kw) = inl uk -> eval_kws (trace_kw val m b uk) = inl uk.
+Proof. revert uk. induction kw as [|[k v] kw IH]; intros uk H; cbn [trace_kw map fst snd BindingShell.eval_kws] in H.
+  - injection H as <-. reflexivity.
+  - destruct (eval_cv (trace_kw1 val m b k v)) as [w|] eqn:Ew; [|discriminate H].
+    fold (trace_kw val m b kw) in H. destruct (eval_kws (trace_kw val m b kw)) as [t|] eqn:Et; [|discriminate H].
+    injection H as <-. cbn [trace_kw map fst snd BindingShell.eval_kws]. fold (trace_kw val m b t). rewrite (IH t eq_refl).
+    assert (Hw : eval_cv (trace_kw1 val m b k w) = inl w).
+    { unfold trace_kw1 in *. destruct m; cbn [run_kw1] in *.
+      - destruct (lookup k (names b)) as [i|]; [cbn in *; exact (Hidem i v w Ew)|].
+        destruct (varkwd b) as [p|]; [cbn in *; exact (Hidem p v w Ew)|discriminate Ew].
+      - destruct (varkwd b) as [p|]; [cbn in *; exact (Hidem p v w Ew)|discriminate Ew].
+      - destruct (lookup k (names b)) as [i|]; [cbn in *; exact (Hidem i v w Ew)|]. cbn in *. injection Ew as <-. reflexivity.
+      - destruct (lookup k (names b)) as [i|]; [cbn in *; exact (Hidem i v w Ew)|]. cbn in *. exact Ew.
+      - cbn in *. injection Ew as <-. reflexivity. }
+    rewrite Hw. reflexivity. Qed.
+
+Theorem binder_eval_idem pm km b args kw ua uk : sp_vp_ok b ->
+  binder_eval pm km b args kw = inl (ua, uk) -> binder_eval pm km b ua uk = inl (ua, uk).
+Proof. intros Hb. unfold BindingShell.binder_eval.
+  destruct (eval_seq (trace_pos val pm b args)) as [a|] eqn:E1; [|intros H; discriminate H].
+  destruct (eval_kws (trace_kw val km b kw)) as [k|] eqn:E2; [|intros H; discriminate H].
+  intros H. injection H as <- <-. rewrite (trace_pos_idem pm b args a Hb E1), (trace_kw_idem km b kw k E2). reflexivity. Qed.
+
+(* with idempotent unmarshallers a second layer changes nothing, on ANY call (accepted or not) *)
+Theorem shell_call_idem c b (f : callable) args kw : sp_vp_ok b ->
+  shell_call c b (shell_call c b f) args kw = shell_call c b f args kw.
+Proof. intros Hb. unfold BindingShell.shell_call.
+  destruct (binder_eval (posmode_of c) (kwmode_of c) b args kw) as [[ua uk]|e] eqn:Eb; [|reflexivity].
+  rewrite (binder_eval_idem _ _ b args kw ua uk Hb Eb). reflexivity. Qed.
+
+Lemma kw_find_keys_none k (kw kw' : list (nat * val)) : map fst kw = map fst kw' -> kw_find val k kw = None -> kw_find val k kw' = None.
+Proof. intros Hk H. pose proof (kw_find_keys val k kw kw' Hk) as Hs. rewrite H in Hs.
+  destruct (kw_find val k kw'); [discriminate Hs|reflexivity]. Qed.
+Lemma trace_kw_keys m b (kw : list (nat * val)) : map fst (trace_kw val m b kw) = map fst kw.
+Proof. unfold trace_kw. rewrite map_map. reflexivity. Qed.
+
+Lemma binder_eval_keys pm km b args kw ua uk : binder_eval pm km b args kw = inl (ua, uk) -> map fst kw = map fst uk.
+Proof. unfold BindingShell.binder_eval. destruct (eval_seq _) as [a|]; [|intros H; discriminate H].
+  destruct (eval_kws (trace_kw val km b kw)) as [k|] eqn:E2; [|intros H; discriminate H]. intros H. injection H as <- <-.
+  rewrite (eval_kws_keys val E type_error um key_val _ _ E2), trace_kw_keys. reflexivity. Qed.
+
+End Idem.
+End Twice.
+
+(* ---------- wrap(cls) on a hierarchy ---------- *)
+Lemma resolve_init_wrap_class n fuel Ev c k f :
+  Ev c = Some k -> resolve_init fuel Ev c = Some f ->
+  resolve_init (S n) (wrap_class fuel Ev c) c = Some (FWrap f).
+Proof. intros Hk Hf. unfold wrap_class. rewrite Hk, Hf. cbn [resolve_init]. unfold cenv_set. rewrite Nat.eqb_refl. reflexivity. Qed.
+(* a class with an __init__ of its own is not affected by wrapping another class *)
+Lemma resolve_init_wrap_other n fuel Ev c d kd g :
+  d <> c -> Ev d = Some kd -> c_init kd = Some g ->
+  resolve_init (S n) (wrap_class fuel Ev c) d = Some g.
+Proof. intros Hd Hk Hg. unfold wrap_class.
+  assert (X : resolve_init (S n) Ev d = Some g) by (cbn [resolve_init]; rewrite Hk, Hg; reflexivity).
+  destruct (Ev c) as [k|]; [|exact X]. destruct (resolve_init fuel Ev c); [|exact X].
+  cbn [resolve_init]. unfold cenv_set. apply Nat.eqb_neq in Hd. rewrite Hd, Hk, Hg. reflexivity. Qed.
+
+(* base B with its own __init__ f; subclass S of B, with its own __init__ (Some g) or inheriting (None) *)
+Definition two_classes (B S : nat) (f : fnobj) (sub_init : option fnobj) : cenv :=
+  fun d => if Nat.eqb d S then Some {| c_base := Some B; c_init := sub_init |}
+           else if Nat.eqb d B then Some {| c_base := None; c_init := Some f |} else None.
+
+Theorem wrap_order_inherited B S f : B <> S ->
+  let Ev := two_classes B S f None in
+  (* base first, then the subclass: the subclass re-wraps the wrapper it inherits *)
+  resolve_init 2 (wrap_classes 2 Ev [B; S]) S = Some (FWrap (FWrap f)) /\
+  resolve_init 2 (wrap_classes 2 Ev [B; S]) B = Some (FWrap f) /\
+  (* subclass first: one layer each *)
+  resolve_init 2 (wrap_classes 2 Ev [S; B]) S = Some (FWrap f) /\
+  resolve_init 2 (wrap_classes 2 Ev [S; B]) B = Some (FWrap f).
+Proof. intros Hne. apply Nat.eqb_neq in Hne. assert (Hne' : Nat.eqb S B = false) by (rewrite Nat.eqb_sym; exact Hne).
+  cbn [wrap_classes]. unfold wrap_class, two_classes, cenv_set. cbn [resolve_init c_init c_base].
+  repeat (rewrite ?Nat.eqb_refl, ?Hne, ?Hne'; cbn [resolve_init c_init c_base]). repeat split. Qed.
+
+Theorem wrap_order_own_init B S f g : B <> S ->
+  let Ev := two_classes B S f (Some g) in
+  forall order, order = [B; S] \/ order = [S; B] ->
+  resolve_init 2 (wrap_classes 2 Ev order) S = Some (FWrap g) /\
+  resolve_init 2 (wrap_classes 2 Ev order) B = Some (FWrap f).
+Proof. intros Hne. apply Nat.eqb_neq in Hne. assert (Hne' : Nat.eqb S B = false) by (rewrite Nat.eqb_sym; exact Hne).
+  intros Ev order [-> | ->]; subst Ev; cbn [wrap_classes]; unfold wrap_class, two_classes, cenv_set; cbn [resolve_init c_init c_base];
+  repeat (rewrite ?Nat.eqb_refl, ?Hne, ?Hne'; cbn [resolve_init c_init c_base]); split; reflexivity. Qed.
+
+(* ---------- functools.wraps ---------- *)
+Theorem wraps_meta src_id src own :
+  m_wrapped (wraps src_id src own) = Some src_id /\
+  (forall x, m_name src = Some x -> m_name (wraps src_id src own) = Some x) /\
+  (forall x, m_qualname src = Some x -> m_qualname (wraps src_id src own) = Some x) /\
+  (forall x, m_doc src = Some x -> m_doc (wraps src_id src own) = Some x) /\
+  (forall x, m_module src = Some x -> m_module (wraps src_id src own) = Some x) /\
+  (m_name src = None -> m_name (wraps src_id src own) = m_name own) /\
+  (m_qualname src = None -> m_qualname (wraps src_id src own) = m_qualname own).
+Proof. unfold wraps; cbn. repeat split; intros; try (rewrite H; reflexivity). Qed.
+
+Fixpoint dict_get (k : nat) (d : list (nat * nat)) : option nat :=
+  match d with [] => None | (k', v) :: r => if Nat.eqb k k' then Some v else dict_get k r end.
+Lemma dict_get_set k v d k' : dict_get k' (dict_set k v d) = if Nat.eqb k' k then Some v else dict_get k' d.
+Proof. induction d as [|[a b] d IH]; cbn [dict_set dict_get].
+  - reflexivity.
+  - destruct (Nat.eqb k a) eqn:Eka; cbn [dict_get].
+    + apply Nat.eqb_eq in Eka. subst a. destruct (Nat.eqb k' k); reflexivity.
+    + rewrite IH. destruct (Nat.eqb k' a) eqn:Ea; [|reflexivity]. apply Nat.eqb_eq in Ea. subst a.
+      rewrite (Nat.eqb_sym k' k), Eka. reflexivity. Qed.
+(* every attribute of the wrapped function's __dict__ is on the wrapper with the same value *)
+Theorem wraps_dict src_id src own k v : NoDup (map fst (m_dict src)) -> In (k, v) (m_dict src) ->
+  dict_get k (m_dict (wraps src_id src own)) = Some v.
+Proof. unfold wraps; cbn [m_dict]. generalize (m_dict own) as d. induction (m_dict src) as [|[a b] upd IH]; intros d Hnd Hin; [destruct Hin|].
+  cbn [map fst] in Hnd. apply NoDup_cons_iff in Hnd. destruct Hnd as [Hna Hnd]. cbn [dict_update].
+  destruct Hin as [Heq|Hin]; [|exact (IH _ Hnd Hin)]. injection Heq as -> ->.
+  clear IH Hnd. revert d. induction upd as [|[a b] upd IH]; intros d; cbn [dict_update].
+  - rewrite dict_get_set, Nat.eqb_refl. reflexivity.
+  - cbn [map fst] in Hna. assert (Hk : k <> a) by (intros ->; apply Hna; left; reflexivity).
+    assert (Hna' : ~ In k (map fst upd)) by (intros X; apply Hna; right; exact X).
+    revert d. clear IH.
+    assert (Hgen : forall upd0 d0, ~ In k (map fst upd0) -> dict_get k (dict_update d0 upd0) = dict_get k d0).
+    { induction upd0 as [|[a0 b0] upd0 IH0]; intros d0 Hn0; cbn [dict_update]; [reflexivity|].
+      cbn [map fst] in Hn0. rewrite IH0 by (intros X; apply Hn0; right; exact X).
+      rewrite dict_get_set. destruct (Nat.eqb k a0) eqn:E0; [|reflexivity].
+      apply Nat.eqb_eq in E0. subst a0. exfalso. apply Hn0. left. reflexivity. }
+    intros d. rewrite (Hgen upd _ Hna'). rewrite dict_get_set. apply Nat.eqb_neq in Hk. rewrite Hk.
+    rewrite dict_get_set, Nat.eqb_refl. reflexivity. Qed.
+
+(* ---------- the API level: bind(f) and wrap(f) ARE the shell, on every call ---------- *)
+Section Api.
+Variables (val E : Type) (type_error : E) (um : nat -> val -> val + E) (key_val : nat -> val) (R : Type).
+Notation shell_call := (shell_call val E type_error um key_val R).
+Notation bind := (bind val E type_error um key_val R).
+Notation wrap_fn := (wrap_fn val E type_error um key_val R).
+Notation bind_pinned := (bind_pinned val E type_error um key_val R).
+Notation wrap_fn_pinned := (wrap_fn_pinned val E type_error um key_val R).
+Notation callable := (callable val E R).
+
+Theorem api_is_shell rows s (f : callable) : matrix_ok rows = true ->
+  exists c, matrix_lookup rows (truth_of s) = Some c /\
+            wrap_fn rows s f = Some (shell_call c (get_binding s) f) /\
+            bind rows s f = Some (shell_call c (get_binding s) f).
+Proof. intros Hm. destruct (matrix_ok_lookup rows (truth_of s) Hm) as [c [Hc _]]. exists c. split; [exact Hc|].
+  unfold BindingShell.wrap_fn, BindingShell.bind. rewrite Hc. split; reflexivity. Qed.
+
+(* the code as pinned: outside the reserved keyword it was the same shell ... *)
+Theorem pinned_is_shell reserved self_name rows s (f : callable) : matrix_ok rows = true ->
+  exists c, matrix_lookup rows (truth_of s) = Some c /\
+    (exists g, wrap_fn_pinned reserved rows s f = Some g /\
+               forall args kw, kw_find val reserved kw = None -> g args kw = shell_call c (get_binding s) f args kw) /\
+    (exists h, bind_pinned self_name rows s f = Some h /\
+               forall args kw, kw_find val self_name kw = None -> h args kw = shell_call c (get_binding s) f args kw).
+Proof. intros Hm. destruct (matrix_ok_lookup rows (truth_of s) Hm) as [c [Hc _]]. exists c. split; [exact Hc|].
+  unfold BindingShell.wrap_fn_pinned, BindingShell.bind_pinned. rewrite Hc. split; eexists; (split; [reflexivity|]); intros args kw Hk.
+  - unfold BindingShell.wrapper_call_pinned. rewrite Hk. reflexivity.
+  - unfold BindingShell.bound_routine_call_pinned. rewrite Hk. reflexivity. Qed.
+(* ... a caller's keyword named like the closure's keyword-only parameter replaced the binder *)
+Theorem wrap_pinned_hijacked reserved rows s (f : callable) g args kw x :
+  wrap_fn_pinned reserved rows s f = Some g -> kw_find val reserved kw = Some x ->
+  g args kw = Hijacked x args (kw_remove val reserved kw).
+Proof. unfold BindingShell.wrap_fn_pinned. destruct (matrix_lookup rows (truth_of s)); intros H Hk; [|discriminate H].
+  injection H as <-. unfold BindingShell.wrapper_call_pinned. rewrite Hk. reflexivity. Qed.
+(* ... and a caller's keyword named like BoundRoutine.__call__'s first parameter was refused *)
+Theorem bind_pinned_self_refused self_name rows s (f : callable) h args kw x :
+  bind_pinned self_name rows s f = Some h -> kw_find val self_name kw = Some x -> h args kw = Raise type_error.
+Proof. unfold BindingShell.bind_pinned. destruct (matrix_lookup rows (truth_of s)); intros H Hk; [|discriminate H].
+  injection H as <-. unfold BindingShell.bound_routine_call_pinned. rewrite Hk. reflexivity. Qed.
+End Api.
+
+(* ---------- end to end at the API level ---------- *)
+Section ApiFrames.
+Variables (val E : Type) (type_error : E) (um : nat -> val -> val + E) (key_val : nat -> val) (R : Type).
+Notation conv_call := (conv_call val E type_error um key_val).
+Notation conv_frame := (conv_frame val E um).
+Notation py_bind := (py_bind val).
+Notation call_fn := (@call_fn val E type_error R).
+Notation api_apply := (api_apply val E type_error um key_val R).
+
+Theorem api_frame_accepts api rows (pf : pyfun val E R) args kw fr :
+  wfb (f_sig pf) = true -> distinct_names (f_sig pf) = true -> matrix_ok rows = true ->
+  py_bind (f_def pf) (f_sig pf) args kw = Some fr ->
+  exists g r, api_apply api rows (f_sig pf) (call_fn pf) = Some g /\
+    conv_call (f_sig pf) args kw = Some r /\
+    match r with
+    | inr e => g args kw = Raise e
+    | inl (ua, uk) => exists fr', conv_frame 0 fr = inl fr' /\ py_bind (f_def pf) (f_sig pf) ua uk = Some fr' /\
+                                  g args kw = f_body pf fr'
+    end.
+Proof. intros Hwf Hd Hm Hb.
+  destruct (api_is_shell val E type_error um key_val R rows (f_sig pf) (call_fn pf) Hm) as [c [Hc [Hg Hh]]].
+  destruct (shell_frame_accepts val E type_error um key_val R rows pf c args kw fr Hwf Hd Hm Hc Hb) as [r [Hr Hres]].
+  eexists. exists r. split; [destruct api; cbn [BindingShell.api_apply]; [exact Hg|exact Hh]|]. split; [exact Hr|exact Hres]. Qed.
+
+Theorem api_frame_rejects api rows (pf : pyfun val E R) args kw :
+  matrix_ok rows = true -> py_bind (f_def pf) (f_sig pf) args kw = None ->
+  exists g e, api_apply api rows (f_sig pf) (call_fn pf) = Some g /\
+              g args kw = Raise e /\ (e = type_error \/ raised_by_um val E um e).
+Proof. intros Hm Hb.
+  destruct (api_is_shell val E type_error um key_val R rows (f_sig pf) (call_fn pf) Hm) as [c [Hc [Hg Hh]]].
+  destruct (shell_frame_rejects val E type_error um key_val R pf c args kw Hb) as [e [He Hk]].
+  eexists. exists e. split; [destruct api; cbn [BindingShell.api_apply]; [exact Hg|exact Hh]|]. split; assumption. Qed.
+End ApiFrames.
